@@ -55,7 +55,7 @@ TRUSTED_EXTRA = ["scripted search / minimiser objects substituted from outside (
 
 
 def regenerate(ctx: Ctx) -> None:
-    ctx.gen_status.update(ktn_cfg.regenerate())
+    ctx.gen_status.update(ktn_cfg.regenerate(["add_minimum", "add_ts", "__init__", "reset_network"]))
     ctx.gen_status.update(sim_tr.regenerate())
 
 
